@@ -7,6 +7,7 @@ import subprocess
 import time
 
 HERE = os.path.dirname(os.path.abspath(__file__))
+WATCHDOG_SCALE = float(os.environ.get("VERIF_WATCHDOG_SCALE", "3"))
 NLRUN = os.path.join(os.path.dirname(HERE), "harness", "target", "release", "nlrun")
 
 UNLIMITED = 2**64 - 1
@@ -57,7 +58,9 @@ class NL:
     def request(self, req, timeout=None):
         if self.p is None or self.p.poll() is not None:
             self.start()
-        timeout = self.timeout if timeout is None else timeout
+        # watchdog only (a hang is reported as inconclusive, never as a violation); scaled so that a heavily loaded
+        # machine does not turn sub-second work into a spurious hang report
+        timeout = (self.timeout if timeout is None else timeout) * WATCHDOG_SCALE
         data = (json.dumps(req) + "\n").encode()
         try:
             self.p.stdin.write(data)
